@@ -12,9 +12,10 @@ pub fn explore(opts: &Opts) -> Explored {
         Tier::Quick => (4, 3),
         Tier::Thorough => (4, 4),
     };
-    let sh = shapes(rank, dim);
+    let mut sh = shapes(rank, dim);
+    sh.extend(long_shapes());
     let ops = [OpK::Add, OpK::Sub, OpK::Mul, OpK::Div, OpK::Axpy(-2.0), OpK::Axpy(3.0)];
-    let variants: Vec<u64> = vec![opts.seed % 3, (opts.seed + 1) % 3];
+    let variants: Vec<u64> = vec![opts.seed % 3, (opts.seed + 1) % 3, 3, 4];
     let n = sh.len() * sh.len();
     let local = par(opts, n, |i, l| {
         let a_dims = &sh[i / sh.len()];
@@ -86,7 +87,7 @@ pub fn explore(opts: &Opts) -> Explored {
     });
     Explored {
         local,
-        bounds: json!({"max_rank": rank, "max_dim": dim, "shapes": sh.len(), "ordered_pairs": n,
+        bounds: json!({"max_rank": rank, "max_dim": dim, "plus_long_shapes": long_shapes(), "shapes": sh.len(), "ordered_pairs": n,
                        "ops": ops.iter().map(|o| o.name()).collect::<Vec<_>>(), "valuations": variants}),
         rule: "every ordered pair of shapes of S(rank,dim) x {add,sub,mul,div,axpy(-2),axpy(3)} x 2 valuations; a state is a shape pair, a transition one library call compared with the index-definition reference (value, dimensions, or mandatory refusal)".into(),
         exhaustive: true,
